@@ -86,6 +86,7 @@ WHITELIST = [
     ("compare_rows_for_journalling", ["arr", "arr", "arr", "arr", "barr"]),
     ("generate_ordered_map_to_left_both_unique", ["arr", "arr", "arr", "int"]),
     ("generate_ordered_map_to_left_right_unique", ["arr", "arr", "arr", "int"]),
+    ("ordered_inner_map_both_unique", ["arr", "arr", "arr", "arr"]),
 ]
 
 LEAN_T = {"int": "Int", "bool": "Bool", "arr": "List Int", "barr": "List Bool", "opt_arr": "Option (List Int)",
